@@ -11,6 +11,9 @@ import (
 //	vh-reward replay-split   -in behaviours [-payer N]
 //	vh-reward trace-split    -out trace.ndjson -n WORLDS -steps K
 //	vh-reward replay-weight  -in behaviours
+//	vh-reward replay-session -in behaviours -maxnodes N -maxpicks K
+//	vh-reward trace-session  -out trace.ndjson -n WORLDS
+//	vh-reward trace-dispatch -out trace.ndjson -n WORLDS   (keeper.HandleDispatch over committed versions)
 //	vh-reward trace-weight   -out trace.ndjson -mode main|manybins|confirm -tier quick|thorough [-f F -ceil C]
 func main() {
 	if len(os.Args) < 2 {
@@ -28,10 +31,10 @@ func main() {
 	tier := fs.String("tier", "quick", "quick | thorough")
 	ff := fs.Int64("f", 2, "confirm: ServicerStakeFloorMultiplier")
 	fc := fs.Int64("ceil", 2, "confirm: ServicerStakeWeightCeiling")
+	maxNodes := fs.Int("maxnodes", 5, "replay-session: MaxNodes of the specification instance")
+	maxPicks := fs.Int("maxpicks", 6, "replay-session: MaxPicks of the specification instance")
 	_ = fs.Parse(os.Args[2:])
 	switch cmd {
-	case "probe":
-		probe()
 	case "replay-split":
 		replaySplit(*in, *payer)
 	case "trace-split":
@@ -40,6 +43,12 @@ func main() {
 		replayWeight(*in)
 	case "trace-weight":
 		traceWeight(*out, *mode, *tier, *ff, *fc)
+	case "replay-session":
+		replaySession(*in, *maxNodes, *maxPicks)
+	case "trace-session":
+		traceSession(*out, *n)
+	case "trace-dispatch":
+		traceDispatch(*out, *n)
 	default:
 		fmt.Fprintln(os.Stderr, "unknown command", cmd)
 		os.Exit(2)
